@@ -1,0 +1,61 @@
+package labelmap
+
+import (
+	"sync"
+	"testing"
+
+	"github.com/janelia-flyem/dvid/datatype/common/labels"
+	"github.com/janelia-flyem/dvid/dvid"
+	"github.com/janelia-flyem/dvid/server"
+)
+
+// Concurrent block writes (one goroutine per block in POST blocks / POST raw) must leave the
+// version's maximum label at the largest label written, whatever the interleaving.
+func TestMaxLabelConcurrentBlocks(t *testing.T) {
+	if err := server.OpenTest(); err != nil {
+		t.Fatalf("can't open test server: %v\n", err)
+	}
+	defer server.CloseTest()
+
+	uuid, v := initTestRepo()
+	d := newDataInstance(uuid, t, "maxlabelrace")
+	bsize := dvid.Point3d{64, 64, 64}
+	for round := 0; round < 50; round++ {
+		base := uint64(round+1) * 1000
+		var wg sync.WaitGroup
+		for i := 0; i < 16; i++ {
+			wg.Add(1)
+			go func(l uint64) {
+				defer wg.Done()
+				d.updateBlockMaxLabel(v, labels.MakeSolidBlock(l, bsize))
+			}(base + uint64(i))
+		}
+		wg.Wait()
+		d.mlMu.RLock()
+		got := d.MaxLabel[v]
+		d.mlMu.RUnlock()
+		if got != base+15 {
+			t.Fatalf("round %d: max label %d after concurrent block updates up to %d", round, got, base+15)
+		}
+	}
+	for round := 0; round < 50; round++ {
+		base := uint64(round+1) * 1000000
+		var wg sync.WaitGroup
+		for i := 0; i < 16; i++ {
+			wg.Add(1)
+			go func(l uint64) {
+				defer wg.Done()
+				if _, err := d.updateMaxLabel(v, l); err != nil {
+					t.Error(err)
+				}
+			}(base + uint64(i))
+		}
+		wg.Wait()
+		d.mlMu.RLock()
+		got := d.MaxLabel[v]
+		d.mlMu.RUnlock()
+		if got != base+15 {
+			t.Fatalf("round %d: max label %d after concurrent updateMaxLabel up to %d", round, got, base+15)
+		}
+	}
+}
